@@ -61,14 +61,15 @@ def _find_log_index(f):
     if f > _log_cache[127] or f <= 0:
         return 128
 
+    # (only the row is remembered, never the caller's own number object: the
+    # table says which frequencies the row stands for)
     if _last_asked is not None:
-        (lastn, lastval) = _last_asked
-        if f >= lastval:
+        lastn = _last_asked
+        if f > (_log_cache[lastn - 1] if lastn != 0 else 0):
             if f <= _log_cache[lastn]:
-                _last_asked = (lastn, f)
                 return lastn
             elif f <= _log_cache[lastn + 1]:
-                _last_asked = (lastn + 1, f)
+                _last_asked = lastn + 1
                 return lastn + 1
             begin = lastn
 
@@ -78,13 +79,13 @@ def _find_log_index(f):
         c = _log_cache[n]
         cp = _log_cache[n - 1] if n != 0 else 0
         if cp < f <= c:
-            _last_asked = (n, f)
+            _last_asked = n
             return n
         if f < c:
             end = n
         else:
             begin = n
-    _last_asked = (begin, f)
+    _last_asked = begin
     return begin
 
 
